@@ -274,6 +274,7 @@ func runC18(w *World) *Result {
 	r.Rule("R-C18-args", "argument holes individually and unconditionally double-quoted; literal program names quoted", 2)
 	r.Rule("R-C18-pipe", "stages joined by | in list order; driver appends stages in traversal order", 3)
 	r.Rule("R-C18-capture", "one $( ) assigned to a fresh helper; $? read in the next line; result order stdout, \"\", status", 3)
+	r.Rule("R-C18-atom", "every value an argument can be is one unit of shell text (one expansion / literal): the argument quoting decides by the first character", 10)
 	r.Rule("R-C18-driver", "every argument of every stage is evaluated once, in order, as a used value before the single AppCall", 1)
 	ProtoRule(w, r, "R-C18-driver", func(n string) bool { return n == "AppCall" })
 	StaleListRule(w, r, "R-C18-driver")
@@ -287,6 +288,9 @@ func runC18(w *World) *Result {
 		c18Backend(w, b, r)
 		// the helpers holding output and status are read back under the name they were written under
 		MangleRule(w, b, r, "R-C18-capture", "AppCall")
+		if role == "bash" {
+			ValueAtomRule(w, b, r, "R-C18-atom")
+		}
 	}
 	c18Driver(w, r)
 	return r
